@@ -81,7 +81,30 @@ def decoding(ctx, fd):
                 "tours are decoded in chronological order of the type's nodes and start at the start-depot node of the depot edge")
 
 
+def every_type_is_solved(ctx, rid="R4"):
+    """MinCostFlowSolver::solve builds a start solution for EVERY vehicle type: the per-type result is stored on every round of the loop
+    over the types (no condition, `continue` or `break` in front of it)"""
+    from .C03 import only_loop_controls
+    key = "solver::min_cost_flow_solver::MinCostFlowSolver::solve"
+    o, fd = ctx.require_fn("%s.every-vehicle-type-is-solved" % rid, "T1", key,
+                           "inside the loop over the vehicle types the tours of solve_for_vehicle_type are stored unconditionally")
+    if fd is None:
+        return
+    ins_ = [c for c in fd.body.calls() if (c.callee or "").endswith("HashMap::insert") and len(c.args) == 3
+            and slice_has_call_def(fd.slice_operand_pure(c, c.args[2]), SFVT)]
+    if not ins_:
+        ctx.undecided(o, "no insert of the per-type tours found")
+        return
+    oth = only_loop_controls(fd, ins_[0])
+    ctx.decide(o, not oth, "only the loop over the vehicle types controls the insert",
+               "a vehicle type can be skipped, or the loop left early (extra condition at %s): the departure segments of the remaining types "
+               "are covered by no vehicle in the start solution" % (oth[0][0].line() if oth else "?"), loc=ins_[0].line())
+
+
 def rules(ctx):
+    every_type_is_solved(ctx)
+    from . import formulas as _fm
+    _fm.unit_agreement(ctx, "R1")      # arc costs and the spawning cost price time in seconds, like the objective they stand for
     from .C02 import capacity_capped_by_total
     from . import formulas
     formulas.flow_network_details(ctx, "R1")
